@@ -29,6 +29,10 @@ def scenarios(pid, thorough):
             for mix in (['dying'], ['apply', 'dying']):
                 out.append(dict(kind='close_join', threads=True, procs=procs, quota=0, mix=mix, when='now',
                                 njobs=2, dur=0.05))
+        # a job over the pool's hard time limit while close() / join() drain
+        for threads in (True, False):
+            out.append(dict(kind='close_join', threads=threads, procs=2, quota=0, mix=['apply', 'overlimit'],
+                            when='now', njobs=2, dur=0.05, limit=1.5))
     else:
         for threads in (True, False):
             for procs in ((1, 2, 3) if thorough else (1, 2)):
